@@ -259,6 +259,7 @@ type Exec struct {
 	blocks   []Event // would-block events
 	spawns   []string
 	pools    map[int][]Value // sync.Pool contents by pool object
+	syncMaps map[string]*MapVal // sync.Map contents by map object (entries guarded by the storing path condition)
 	spawned  []spawnRec // goroutines started by `go` (not scheduled; vsRunSpawned runs one until it returns or blocks)
 	nondets  []NondetVar
 	observes []NondetVar
@@ -886,6 +887,13 @@ func (ex *Exec) run(st *State, fr *Frame, b *ssa.BasicBlock, stop *ssa.BasicBloc
 					}
 					switch {
 					case !t1 && !t2:
+						if os.Getenv("VS_DEBUGKILL") != "" {
+							fmt.Fprintf(os.Stderr, "KILL both arms infeasible at %s case %s\n", ex.pos(in), ex.curCase)
+							for _, q := range st.pcs {
+								fmt.Fprintf(os.Stderr, "   pc: %.300s\n", q.String())
+							}
+							fmt.Fprintf(os.Stderr, "   c: %.300s\n", c.String())
+						}
 						st.kill()
 						return false
 					case t1 && !t2:
